@@ -49,7 +49,8 @@ def run_one(args):
             ra0, dec0 = w.all_pix2world([[shape[1] / 2.0, shape[0] / 2.0]], 0)[0]
             if seed % 2:
                 reg.add_circles(math.radians(ra0), math.radians(dec0), math.radians(5.0))
-            else:                      # the whole sky, stored as coarse pixels
+            else:                      # the whole sky, stored as coarse pixels (shallow region: cheap to demote)
+                reg = Region(maxdepth=6)
                 reg.add_circles(math.radians(ra0), math.radians(dec0), math.radians(40.0))
                 reg.add_pixels(list(range(48)), 1)
                 reg._renorm()
